@@ -31,6 +31,7 @@ import fanout
 import strshapes
 import watchdog
 import c09_logging
+import c09_inject
 from c09_payloads import PAYLOADS
 
 use_repo()
@@ -999,6 +1000,7 @@ def run(ctx):
             k = rng.randint(1, min(len(frs), 8))
             streams.append(b"".join(wire(fr) for fr in frs[:k]))
     loss_with_backlog(res)
+    c09_inject.run_section(res, rng, ctx["tier"])
     fanout.run_section(res, rng, 150 if ctx["tier"] == "quick" else 4000, "C09")
     producer.run_section(res, rng, 400 if ctx["tier"] == "quick" else 6000, "C09", streams)
     res.rule += ("; producer stage: byte streams of such frames and noise x write-fault scripts (OSError / timeout at any cycle), "
@@ -1020,6 +1022,10 @@ def replay(ctx):
         res.rule = "replay of one recorded sub-device fan-out run"
         fanout.replay_case(res, inp, "C09")
         res.case(json.dumps(inp["frames"]))
+        return res
+    if inp.get("via") == "inject":
+        res.rule = "replay of one injected decoder / reader fault"
+        c09_inject.replay_case(res, inp)
         return res
     if inp.get("via") == "stall":
         res.rule = "replay of one recorded frame that stalled the pipeline"
